@@ -215,10 +215,33 @@ ladder:
 			break
 		}
 		for {
-			r := run(n)
+			r, unconfirmed := c10Confirm(run(n), func() c10JobResult {
+				if nb, _ := c10Calibrate(thorough); nb.unitNs > budget.unitNs {
+					budget.unitNs = nb.unitNs // see c10RunChain: the second run is judged by the linear pipeline as it runs now
+				}
+				return run(n)
+			}, func(x c10JobResult) string {
+				w := fam
+				if sf := c10StageFamily(x.Stage); sf != "decode" {
+					w = fam + ":" + sf
+				}
+				return "superlinear_" + w + "_" + chn.form.Name
+			})
+			if unconfirmed != "" {
+				outcomes = append(outcomes, fmt.Sprintf("%d:%s", n, unconfirmed))
+			}
 			o := r.Outcome
 			if o == "accepted" || o == "rejected" {
-				outcomes = append(outcomes, fmt.Sprintf("%d:%s(%dms)", n, o, r.CPUms))
+				lim := bud(n)
+				if c10StageFamily(r.MaxStage) == "json-encode" {
+					lim *= c10RunJSONEncFactor
+				}
+				if r.MaxStageMs*4 >= lim {
+					// a completed stage that used a quarter of its budget or more (evidence of the margin on this machine)
+					outcomes = append(outcomes, fmt.Sprintf("%d:%s(%dms; %s %dms of %dms)", n, o, r.CPUms, c10StageFamily(r.MaxStage), r.MaxStageMs, lim))
+				} else {
+					outcomes = append(outcomes, fmt.Sprintf("%d:%s(%dms)", n, o, r.CPUms))
+				}
 				lastOK = n
 				break
 			}
